@@ -89,6 +89,16 @@ Theorem C18_loads_refuted_merge_key : forall print parse,
 Proof. intros print parse PP. split; [reflexivity | apply (load_written_merge_key print parse PP)]. Qed.
 Print Assumptions C18_loads_refuted_merge_key.
 
+(* Several runs on one fresh target (in the order their atomic exclusive creates take effect -
+   concurrent runs included): exactly the first succeeds, every other one fails, and the file is
+   the complete document of the winner. *)
+Theorem C18_one_winner : forall print f flag pkg rest,
+  f (target flag) = None -> is_dir f (dirname (target flag)) = true ->
+  init_all print f flag (pkg :: rest) =
+  (upd f (target flag) (File (print (init_tree pkg))), Written :: repeat ErrExists (length rest)).
+Proof. exact init_all_one_winner. Qed.
+Print Assumptions C18_one_winner.
+
 (* Non-vacuity: a clean directory; a package path full of YAML-significant characters passes
    the guard, init succeeds, a second init fails and changes nothing. *)
 Example C18_example :
